@@ -547,6 +547,32 @@ pub fn coarse_bits_all(unit: usize, max_len: u32, extra: usize) -> Vec<BitGen> {
     v
 }
 
+/// Position lists whose consecutive gaps are all combinations of up to `k` values around the 16-bit boundary that DArray's
+/// dense / sparse decision and its u16 offsets live on (1, 65534, 65535, 65536, 70000), from three start offsets.
+pub fn boundary_gap_lists(k: usize) -> Vec<BitGen> {
+    let gaps = [1usize, 65534, 65535, 65536, 70000];
+    let mut out = Vec::new();
+    for start in [0usize, 5, 65535] {
+        let mut level: Vec<Vec<usize>> = vec![vec![start]];
+        for _ in 0..k {
+            let mut next = Vec::new();
+            for p in &level {
+                for g in gaps {
+                    let mut q = p.clone();
+                    q.push(p[p.len() - 1] + g);
+                    next.push(q);
+                }
+            }
+            for q in &next {
+                out.push(BitGen::Pos { pos: q.clone(), tail: 0 });
+                out.push(BitGen::Pos { pos: q.clone(), tail: 3 });
+            }
+            level = next;
+        }
+    }
+    out
+}
+
 pub fn tinybits_all(max_len: u32) -> Vec<BitGen> {
     let mut v = Vec::new();
     for len in 0..=max_len {
